@@ -260,7 +260,7 @@ fn replay_pairs_typed<P: PType, A: Side<P>, B: Side<P>>(rp: &Value) -> Option<Ve
     let mut cnt = pairs::PairCounters::default();
     let r = guarded(|| pairs::eval_root_pair::<P, A, B>(&mut am, &mut bm, &mut sa, &mut sb, with_rep(qa, 1, uni.width), with_rep(qb, 0, uni.width), uni.width, 1_000_000, &mut cnt));
     Some(match r {
-        Ok(v) => v,
+        Ok(v) => pairs::add_repr_dependence::<P, A, B>(v, &ha, &hb, qa, qb, &uni),
         Err(msg) => vec![crate::viol::Viol::new("C20", "set operation", "panic", msg)],
     })
 }
